@@ -460,6 +460,16 @@ theorem path_hops_project_partial (g : LGraph) (hg : ProjG g) (p : List Node) (h
   rw [hsplit] at hc
   exact projected_edge_in_table_graph g hg a b (IsChain.edge_of_append l a b r hc) d T hd
 
+/-- **the roles along a reported path**: in a well-formed combined graph that projects, for every hop of every reported path
+    between table-owned columns, the table owning the hop's source column is a SOURCE or INTERMEDIATE table of the summary and the
+    table owning its target column is a TARGET or INTERMEDIATE table — in particular the owner of the path's last column (last hop)
+    and the owner of a resolved first column (first hop), as the property words it -/
+theorem path_hop_roles_partial (g : LGraph) (hg : ProjG g) (hwf : WF g) (p : List Node) (hp : p ∈ columnLineage g)
+    (l : List Node) (a b : Node) (r : List Node) (hsplit : p = l ++ a :: b :: r) (d T : DS) (hd : DsEdge a b d T) :
+    (Node.ds d ∈ Assemble.sourceTables g ∨ Node.ds d ∈ Assemble.intermediateTables g) ∧
+    (Node.ds T ∈ Assemble.targetTables g ∨ Node.ds T ∈ Assemble.intermediateTables g) :=
+  table_edge_roles g hwf _ _ (path_hops_project_partial g hg p hp l a b r hsplit d T hd)
+
 /-- **statement level**: the holder of a flat write statement whose qualifiers are all in scope projects -/
 theorem flat_holder_projects_partial (env : Env) (silent : Bool) (s : Stmt) (hp : env.prov.truthy = false)
     (hs : fragStmt env s = true) (hsc : stmtScoped env s = true) :
